@@ -3,7 +3,7 @@ import Dcg.Gen.Formats
 /-
 C15 — equivalent inputs produce the same models.
 What can be stated about the generator's own algorithms is here: the rewriting of draft-4 boolean
-exclusive bounds, and which containers of named schemas are walked. JSON-vs-YAML text and
+exclusive bounds, and which containers of named schemas are walked (all of them: `definitions` and `$defs`). JSON-vs-YAML text and
 str-vs-Path are I/O (PyYAML, the file system): no theorem, differential runs only
 (vlib/props/c15.py) — the claim for those parts is PARTIAL.
 -/
@@ -60,23 +60,162 @@ theorem bounds_steps_as_modelled :
 /-! ### containers of named schemas -/
 
 /-- Both `#/definitions` and `#/$defs` are walked by the JSON-Schema parser, `#/components/schemas`
-by the OpenAPI parser. -/
+by the OpenAPI parser; `schema_paths` of the JSON-Schema parser (regenerated from `SCHEMA_PATHS` on every
+run) is the pair of containers the model walks, in this order. -/
 theorem defs_paths_both_walked :
     jsonSchemaPaths.contains "#/definitions" = true ∧ jsonSchemaPaths.contains "#/$defs" = true ∧
-    openapiSchemaPaths.contains "#/components/schemas" = true := by decide
+    openapiSchemaPaths.contains "#/components/schemas" = true ∧
+    containerPaths = [("#/definitions", "definitions"), ("#/$defs", "$defs")] := by decide
 
-/-- The same non-empty set of named schemas held under `definitions` or under `$defs` is the set
-that is walked, whatever the set is. -/
-theorem defs_equiv {β : Type} (d : β) (ds : List β) :
-    pickContainer [("definitions", d :: ds)] containerKeys = d :: ds ∧
-    pickContainer [("$defs", d :: ds)] containerKeys = d :: ds := by
-  simp [containerKeys, jsonSchemaPathsSplit, pickContainer, List.lookup]
+/-- The loop of `_parse_file` that collects the named schemas, re-extracted from the AST on every run, has
+the shape the model implements: every container of `schema_paths` is looked up, a missing one is skipped,
+the entries of every non-empty one are appended together with the path of their container — there is no
+`break` — and both later loops (`parse_id`, `parse_raw_obj`) run over that list under
+`[*path_parts, schema_path, key]`. -/
+theorem container_loop_as_modelled :
+    containerLoop =
+      ["for (schema_path, split_schema_path) in self.schema_paths:",
+       "try: found = get_model_by_path(raw, split_schema_path)",
+       "except KeyError: continue",
+       "if found: definitions.extend(((schema_path, key, model) for key, model in found.items()))",
+       "for (schema_path, key, model) in definitions: self.parse_id(obj, [*path_parts, schema_path, key])",
+       "for (schema_path, key, model) in definitions: path = [*path_parts, schema_path, key]; self.parse_raw_obj(key, model, path)"] := by
+  decide
 
-/-- FALSE in general for a document that has BOTH containers: only the first non-empty one is
-walked; the schemas of the other are parsed only if something refers to them (known finding). -/
-theorem both_containers_first_only {β : Type} (a b : β) :
-    pickContainer [("definitions", [a]), ("$defs", [b])] containerKeys = [a] := by
-  simp [containerKeys, jsonSchemaPathsSplit, pickContainer, List.lookup]
+/-- WHAT IS WALKED, for ANY document and ANY `SCHEMA_PATHS`: an entry is walked under the path `p` exactly when
+`p` is a container path of the parser and the entry sits in the container of the document that `p` names. -/
+theorem walk_mem {β : Type} (cs : List (String × List β)) (ps : List (String × String)) (p : String) (e : β) :
+    (p, e) ∈ walkContainers cs ps ↔ ∃ k es, (p, k) ∈ ps ∧ cs.lookup k = some es ∧ e ∈ es := by
+  induction ps with
+  | nil => simp [walkContainers]
+  | cons q qs ih =>
+    obtain ⟨path, key⟩ := q
+    simp only [walkContainers, List.mem_append, ih, List.mem_cons, Prod.mk.injEq]
+    constructor
+    · rintro (h | ⟨k, es, hk, hl, he⟩)
+      · cases hl : cs.lookup key with
+        | none => simp [hl] at h
+        | some es =>
+          simp only [hl, List.mem_map, Prod.mk.injEq] at h
+          obtain ⟨e', he', hp, rfl⟩ := h
+          exact ⟨key, es, Or.inl (by simp [hp]), hl, he'⟩
+      · exact ⟨k, es, Or.inr hk, hl, he⟩
+    · rintro ⟨k, es, (⟨rfl, rfl⟩ | hk), hl, he⟩
+      · left
+        simp only [hl, List.mem_map, Prod.mk.injEq]
+        exact ⟨e, he, by simp⟩
+      · exact Or.inr ⟨k, es, hk, hl, he⟩
+
+/-- The same set of named schemas held under `definitions` or under `$defs` is the set that is
+walked, whatever the set is (the empty one included), each entry under the path of its container. -/
+theorem defs_equiv {β : Type} (ds : List β) :
+    walkContainers [("definitions", ds)] containerPaths = ds.map (fun e => ("#/definitions", e)) ∧
+    walkContainers [("$defs", ds)] containerPaths = ds.map (fun e => ("#/$defs", e)) ∧
+    (walkContainers [("definitions", ds)] containerPaths).map (·.2) =
+      (walkContainers [("$defs", ds)] containerPaths).map (·.2) := by
+  simp [containerPaths, jsonSchemaPaths, jsonSchemaPathsSplit, walkContainers, List.lookup, Function.comp_def]
+
+/-- FULL STRENGTH for a document that has BOTH containers (in either key order of the document; the entries
+`as`, `bs` arbitrary, a name may occur in both): the schemas walked are the UNION — the entries of `definitions`
+under `#/definitions` followed by the entries of `$defs` under `#/$defs`, none lost, none twice. -/
+theorem defs_union {β : Type} (as bs : List β) :
+    walkContainers [("definitions", as), ("$defs", bs)] containerPaths =
+      as.map (fun e => ("#/definitions", e)) ++ bs.map (fun e => ("#/$defs", e)) ∧
+    walkContainers [("$defs", bs), ("definitions", as)] containerPaths =
+      as.map (fun e => ("#/definitions", e)) ++ bs.map (fun e => ("#/$defs", e)) := by
+  simp [containerPaths, jsonSchemaPaths, jsonSchemaPathsSplit, walkContainers, List.lookup]
+
+/-- …hence splitting the named schemas of a document over the two containers changes nothing about WHICH schemas
+are walked: any split `as ++ bs` gives the entries that one container holding all of them gives (under either key). -/
+theorem defs_split_equiv {β : Type} (as bs : List β) :
+    (walkContainers [("definitions", as), ("$defs", bs)] containerPaths).map (·.2) = as ++ bs ∧
+    (walkContainers [("definitions", as ++ bs)] containerPaths).map (·.2) = as ++ bs ∧
+    (walkContainers [("$defs", as ++ bs)] containerPaths).map (·.2) = as ++ bs := by
+  simp [containerPaths, jsonSchemaPaths, jsonSchemaPathsSplit, walkContainers, List.lookup, Function.comp_def]
+
+/-- non-vacuity of the two statements above: `definitions: {Aa}`, `$defs: {Bb}` (the former finding
+C15-both-containers, where only `Aa` was walked) -/
+example : walkContainers [("definitions", ["Aa"]), ("$defs", ["Bb"])] containerPaths =
+    [("#/definitions", "Aa"), ("#/$defs", "Bb")] := by decide
+
+/-- No entry is walked twice — for ANY document whose containers have distinct keys (a JSON object) and ANY
+`SCHEMA_PATHS` without a repeated path. In particular the SAME name in two containers is two different entries
+(two registry paths), not one. -/
+theorem walk_nodup {β : Type} (cs : List (String × List β)) (ps : List (String × String))
+    (hps : (ps.map (·.1)).Nodup) (hcs : ∀ k es, cs.lookup k = some es → es.Nodup) :
+    (walkContainers cs ps).Nodup := by
+  induction ps with
+  | nil => simp [walkContainers]
+  | cons q qs ih =>
+    obtain ⟨path, key⟩ := q
+    simp only [List.map_cons, List.nodup_cons] at hps
+    simp only [walkContainers]
+    rw [List.nodup_append]
+    refine ⟨?_, ih hps.2, ?_⟩
+    · cases hl : cs.lookup key with
+      | none => simp
+      | some es =>
+        exact List.Pairwise.map _ (fun a b hab h => hab (by simpa using h)) (hcs key es hl)
+    · intro a ha b hb hab
+      subst hab
+      obtain ⟨p, e⟩ := a
+      have hp : p = path := by
+        cases hl : cs.lookup key with
+        | none => simp [hl] at ha
+        | some es =>
+          simp only [hl, List.mem_map, Prod.mk.injEq] at ha
+          obtain ⟨_, _, h, _⟩ := ha
+          exact h.symm
+      obtain ⟨k, es, hk, _, _⟩ := (walk_mem cs qs p e).mp hb
+      exact hps.1 (List.mem_map.mpr ⟨(p, k), hk, hp⟩)
+
+/-- THE WHOLE WALK of a document with both containers, every body a mapping: the definitions are the entries of
+`definitions` under `#/definitions/<name>` and the entries of `$defs` under `#/$defs/<name>` — whatever the bodies are
+and whatever the names are. -/
+theorem walkDoc_both (as bs : List (String × Body))
+    (ha : as.all (fun e => e.2 != .notAMapping) = true) (hb : bs.all (fun e => e.2 != .notAMapping) = true) :
+    walkDoc [("definitions", as), ("$defs", bs)] containerPaths =
+      some (as.map (fun e => ("#/definitions", e.1)) ++ bs.map (fun e => ("#/$defs", e.1))) := by
+  have hany : ∀ (l : List (String × Body)) (p : String), l.all (fun e => e.2 != .notAMapping) = true →
+      (l.map (fun e => (p, e))).any (fun w => w.2.2 == .notAMapping) = false := by
+    intro l p h
+    rw [List.any_eq_false]
+    intro w hw
+    obtain ⟨e, he, rfl⟩ := List.mem_map.mp hw
+    simpa using List.all_eq_true.mp h e he
+  unfold walkDoc
+  simp only [(defs_union as bs).1, List.any_append, hany as _ ha, hany bs _ hb, Bool.or_self, Bool.false_eq_true,
+    if_false, List.map_append, List.map_map, Function.comp_def]
+
+/-- The same name in both containers: two definitions under two paths (the code parses each with `parse_raw_obj`
+under its own path; the class names are then `X` and `X1`, C06 `names_distinct_after_unique_adds`). -/
+theorem same_name_two_paths (x : String) (a b : Body) (ha : a ≠ .notAMapping) (hb : b ≠ .notAMapping) :
+    walkDoc [("definitions", [(x, a)]), ("$defs", [(x, b)])] containerPaths =
+      some [("#/definitions", x), ("#/$defs", x)] := by
+  rw [walkDoc_both] <;> simp [ha, hb]
+
+example : walkDoc [("definitions", [("X", .typed)]), ("$defs", [("X", .empty)])] containerPaths =
+    some [("#/definitions", "X"), ("#/$defs", "X")] := by decide
+
+/-- A body that is not a mapping aborts the run in WHICHEVER container it sits (the first loop parses every entry
+of every container before anything is generated). -/
+theorem walkDoc_refuses_non_mapping (cs : List (String × List (String × Body))) (ps : List (String × String))
+    (p n : String) (h : (p, (n, Body.notAMapping)) ∈ walkContainers cs ps) : walkDoc cs ps = none := by
+  unfold walkDoc
+  have : (walkContainers cs ps).any (fun w => w.2.2 == .notAMapping) = true :=
+    List.any_eq_true.mpr ⟨_, h, by simp⟩
+  simp [this]
+
+/-- `walkDoc` is `walkNamed` (the per-container loop that the OpenAPI parser has, too) over the concatenation of
+the containers, with the container path kept beside every name. -/
+theorem walkDoc_names (cs : List (String × List (String × Body))) (ps : List (String × String)) :
+    (walkDoc cs ps).map (fun l => l.map (·.2)) = walkNamed ((walkContainers cs ps).map (·.2)) := by
+  have hany : ((walkContainers cs ps).map (·.2)).any (fun e => e.2 == .notAMapping) =
+      (walkContainers cs ps).any (fun w => w.2.2 == .notAMapping) := by
+    rw [List.any_map]; rfl
+  unfold walkDoc walkNamed
+  simp only [hany]
+  cases (walkContainers cs ps).any (fun w => w.2.2 == .notAMapping) <;> simp [Function.comp_def]
 
 /-- Every entry of the walked container becomes a definition, whatever its body is — an empty schema `{}`, a schema
 that only carries annotations, or a full one — as long as every body is a mapping. -/
